@@ -267,39 +267,67 @@ def corr_get_error(ctx: Ctx, drv):
                       out[:8], [int(v) for v in pre["out_nc"]], ok, nontrivial=bool(pre["active"].any()), stratum="diis" if hasd else "plain")
 
 
-def corr_sp2(ctx: Ctx, drv):
-    """real SP2 on diagonal Fock matrices (its action on the spectrum) vs the compiled spectral model, incl. degenerate levels at the Fermi edge"""
+def _sp2_real(arg):
     import torch
 
     from seqm.seqm_functions.SP2 import SP2
 
+    lams, nocc, eps = arg
+    a = torch.diag(torch.as_tensor(lams)).unsqueeze(0)
+    calls = {"n": 0}
+    orig = torch.Tensor.matmul
+
+    def cnt(self, other):
+        calls["n"] += 1
+        return orig(self, other)
+    torch.Tensor.matmul = cnt
+    try:
+        out = SP2(a, torch.tensor([nocc]), eps, factor=1.0)[0].diagonal().numpy()
+    finally:
+        torch.Tensor.matmul = orig
+    return calls["n"], out
+
+
+def corr_sp2(ctx: Ctx, drv):
+    """real SP2 on diagonal Fock matrices (its action on the spectrum) vs the compiled spectral model, incl. degenerate levels at the Fermi edge.
+    Each real call runs in a child with a wall-clock bound: termination IS part of the property, a call that does not return is a failing input."""
     rng = ctx.rng
     n_it = 40 if ctx.thorough else 14
     for it in range(n_it):
         n = int(rng.integers(3, 10))
         lams = np.sort(rng.uniform(-30, 10, size=n))
         nocc = int(rng.integers(1, n))
-        if it % 5 == 0:
+        degenerate = it % 5 == 0
+        if degenerate:
             lams[nocc - 1] = lams[nocc]  # degenerate pair straddling the Fermi level: the rule is never met, exit through the cap
         eps = float(rng.choice([1e-3, 1e-5, 1e-7, 1e-9]))
-        a = torch.diag(torch.as_tensor(lams)).unsqueeze(0)
-        calls = {"n": 0}
-        orig = torch.Tensor.matmul
-
-        def cnt(self, other):
-            calls["n"] += 1
-            return orig(self, other)
-        torch.Tensor.matmul = cnt
+        inp = {"spectrum": lams.tolist(), "nocc": nocc, "eps": eps, "degenerate": degenerate}
         try:
-            out = SP2(a, torch.tensor([nocc]), eps, factor=1.0)[0].diagonal().numpy()
-        finally:
-            torch.Tensor.matmul = orig
+            calls, out = mdh.call_with_timeout(_sp2_real, (lams, nocc, eps), 60.0)
+        except mdh.CallTimeout:
+            ctx.probe_case("sp2_terminates", inp, False, fields={"kinds": ["termination"], "degenerate": degenerate}, observed="SP2 did not return within 60 s on a diagonal matrix",
+                           expected="every call returns in bounded time", predicate="wall clock")
+            continue
+        ctx.probe_case("sp2_terminates", inp, True, fields={"kinds": [], "degenerate": degenerate}, observed=f"{calls} purification steps", expected="returns", predicate="wall clock",
+                       stratum="degenerate" if degenerate else "generic")
         hN, h1 = lams.max(), lams.min()
         x = (1.0 * hN - lams) / (hN - h1)
         ans = drv.ask("sp2_live", f2b(eps), nocc, n, *[f2b(v) for v in x])
-        ok = len(ans) == 2 + n and int(ans[0]) == calls["n"] and all(b2f(o) == float(w) for o, w in zip(ans[2:], out))
-        ctx.corr_case("SP2 (spectral action)", {"n": n, "nocc": nocc, "eps": eps, "degenerate": it % 5 == 0}, ans[:3], [calls["n"]] + out[:2].tolist(), ok,
-                      stratum="degenerate" if it % 5 == 0 else "generic")
+        ok = len(ans) == 2 + n and int(ans[0]) == calls and all(b2f(o) == float(w) for o, w in zip(ans[2:], out))
+        ctx.corr_case("SP2 (spectral action)", {"n": n, "nocc": nocc, "eps": eps, "degenerate": degenerate}, ans[:3], [calls] + out[:2].tolist(), ok,
+                      stratum="degenerate" if degenerate else "generic")
+
+
+def probe_sp2_terminates(inp):
+    try:
+        calls, out = mdh.call_with_timeout(_sp2_real, (np.array(inp["spectrum"]), inp["nocc"], inp["eps"]), 60.0)
+        return {"ok": True, "observed": f"{calls} purification steps", "expected": "returns", "predicate": "wall clock", "fields": {"kinds": [], "degenerate": inp.get("degenerate")}}
+    except mdh.CallTimeout:
+        return {"ok": False, "observed": "SP2 did not return within 60 s on a diagonal matrix", "expected": "every call returns in bounded time", "predicate": "wall clock",
+                "fields": {"kinds": ["termination"], "degenerate": inp.get("degenerate")}}
+
+
+PROBES["sp2_terminates"] = probe_sp2_terminates
 
 
 def run(ctx: Ctx):
